@@ -2204,12 +2204,22 @@ class Node(_protocols.NodeProtocol, _display.PrettyPrintable):
         # 1. If outputs is specified (can be empty []), use the outputs
         if outputs is not None:
             # Check all output values are valid first
-            for output in outputs:
+            for i, output in enumerate(outputs):
                 if output is None:
                     raise ValueError(f"Output value cannot be None. All outputs: {outputs}")
                 if output.producer() is not None:
                     raise ValueError(
                         f"Supplied output value cannot have a producer when used for initializing a Node. "
+                        f"Output: {output}. All outputs: {outputs}"
+                    )
+                if output.is_graph_input():
+                    raise ValueError(
+                        f"Supplied output value cannot be a graph input. "
+                        f"Output: {output}. All outputs: {outputs}"
+                    )
+                if any(output is other for other in outputs[:i]):
+                    raise ValueError(
+                        f"Supplied output values must be distinct. "
                         f"Output: {output}. All outputs: {outputs}"
                     )
             result = []
@@ -3210,6 +3220,8 @@ class Value(WithArithmeticMethods, _protocols.ValueProtocol, _display.PrettyPrin
                 raise ValueError(
                     "Initializer value cannot have name set to None. Please pop() the value from initializers first to do so."
                 )
+            if value == "":
+                raise ValueError("Initializer value cannot have an empty name.")
             graph = self._graph
             assert graph is not None
             if value in graph.initializers and graph.initializers[value] is not self:
@@ -3676,12 +3688,16 @@ class Graph(_protocols.GraphProtocol, Sequence[Node], _display.PrettyPrintable):
         for value in self.initializers.values():
             self._name_authority.register_or_name_value(value)
 
-    def _set_node_graph_to_self_and_assign_names(self, node: Node) -> Node:
-        """Set the graph reference for the node and assign names to it and its outputs if they don't have one."""
+    def _check_node_can_be_added(self, node: Node) -> None:
+        """Check that the node can be added to this graph. Does not modify anything."""
         if node.graph is not None and node.graph is not self:
             raise ValueError(
                 f"The node '{node!r}' belongs to another graph. Please remove it first with Graph.remove()."
             )
+
+    def _set_node_graph_to_self_and_assign_names(self, node: Node) -> Node:
+        """Set the graph reference for the node and assign names to it and its outputs if they don't have one."""
+        self._check_node_can_be_added(node)
         # Give the node and its output values names if they don't not have one
         self._name_authority.register_or_name_node(node)
         for value in node._outputs:  # pylint: disable=protected-access
@@ -3833,6 +3849,10 @@ class Graph(_protocols.GraphProtocol, Sequence[Node], _display.PrettyPrintable):
         Raises:
             ValueError: If any node belongs to another graph.
         """
+        nodes = tuple(nodes)
+        # Check all nodes first so that nothing is modified when any of them is rejected
+        for node in nodes:
+            self._check_node_can_be_added(node)
         nodes = [self._set_node_graph_to_self_and_assign_names(node) for node in nodes]
         self._nodes.extend(nodes)
 
@@ -3890,7 +3910,15 @@ class Graph(_protocols.GraphProtocol, Sequence[Node], _display.PrettyPrintable):
         """
         if isinstance(new_nodes, Node):
             new_nodes = (new_nodes,)
-        new_nodes = [self._set_node_graph_to_self_and_assign_names(node) for node in new_nodes]
+        new_nodes = tuple(new_nodes)
+        # Perform all checks first so that nothing is modified when the call is rejected
+        if node.graph is not self:
+            raise ValueError(f"The node '{node!r}' does not belong to this graph.")
+        for new_node in new_nodes:
+            self._check_node_can_be_added(new_node)
+        new_nodes = [
+            self._set_node_graph_to_self_and_assign_names(new_node) for new_node in new_nodes
+        ]
         self._nodes.insert_after(node, new_nodes)
 
     def insert_before(self, node: Node, new_nodes: Iterable[Node] | Node, /) -> None:
@@ -3907,7 +3935,15 @@ class Graph(_protocols.GraphProtocol, Sequence[Node], _display.PrettyPrintable):
         """
         if isinstance(new_nodes, Node):
             new_nodes = (new_nodes,)
-        new_nodes = [self._set_node_graph_to_self_and_assign_names(node) for node in new_nodes]
+        new_nodes = tuple(new_nodes)
+        # Perform all checks first so that nothing is modified when the call is rejected
+        if node.graph is not self:
+            raise ValueError(f"The node '{node!r}' does not belong to this graph.")
+        for new_node in new_nodes:
+            self._check_node_can_be_added(new_node)
+        new_nodes = [
+            self._set_node_graph_to_self_and_assign_names(new_node) for new_node in new_nodes
+        ]
         self._nodes.insert_before(node, new_nodes)
 
     def sort(self) -> None:
